@@ -584,9 +584,32 @@ def _known_nonzero(t):
     return known
 
 
+def _foreign(a, b, f):
+    """numpy scalar (op) foreign object: numpy's deferral rules, else convert the object through __array__."""
+    if not isinstance(a, generic) or type(a)._py or isinstance(b, generic):
+        return NotImplemented
+    tb = type(b)
+    if hasattr(tb, "__array_ufunc__"):
+        if tb.__array_ufunc__ is None:
+            return NotImplemented
+    elif getattr(b, "__array_priority__", -1000000.0) > -1000000.0:
+        return NotImplemented
+    if hasattr(b, "__array__") and not isinstance(b, type):
+        from .arrays import asarray
+
+        return f(a, asarray(b.__array__()))
+    return NotImplemented
+
+
+_PYOPS = {"add": lambda x, y: x + y, "sub": lambda x, y: x - y, "mul": lambda x, y: x * y, "div": lambda x, y: x / y,
+          "floordiv": lambda x, y: x // y, "mod": lambda x, y: x % y}
+
+
 def _arith(a, b, op):
     a0, b0 = a, b
     a, b = wrap(a), wrap(b)
+    if a is not None and b is None and not hasattr(b0, "_buf"):
+        return _foreign(a, b0, _PYOPS[op])
     if a is None or b is None:
         return NotImplemented
     cls = result_cls(type(a), type(b), op)
